@@ -492,11 +492,18 @@ class AlignmentCollector:
                     coverage_dict[pos] > max(AlignmentCollector.ABS_COV_VALLEY, max_cov * AlignmentCollector.REL_COV_VALLEY):
                 max_cov = max(max_cov, coverage_dict[pos])
                 pos += 1
-            split_regions.append((max(current_start * AbstractAlignmentStorage.COVERAGE_BIN + 1, genomic_region[0]),
-                                  min(pos * AbstractAlignmentStorage.COVERAGE_BIN, genomic_region[1])))
+            # the first piece starts where the region starts, every other piece right after the previous one
+            piece_start = current_start * AbstractAlignmentStorage.COVERAGE_BIN + 1 if split_regions else genomic_region[0]
+            split_regions.append((piece_start, min(pos * AbstractAlignmentStorage.COVERAGE_BIN, genomic_region[1])))
             current_start = pos
             max_cov = coverage_dict[current_start]
             pos = min(current_start + 1, coverage_positions[-1] + 1)
+
+        # the last occupied bin(s) may still be uncovered (the scan stopped at a coverage valley in the last bin,
+        # or all alignments lie in a single bin): the pieces must reach the end of the region
+        covered_end = split_regions[-1][1] if split_regions else genomic_region[0] - 1
+        if covered_end < genomic_region[1]:
+            split_regions.append((covered_end + 1, genomic_region[1]))
 
         return split_regions
 
